@@ -1100,4 +1100,149 @@ theorem compile_good {P : Script} {prog : Program} (h : compile P = .ok prog) :
       have g := (visitStmts_ext h1).good g0
       exact ⟨g.wf, g.wfn⟩
 
+/-! ### the names of the `Variable` resources are pairwise distinct -/
+
+def varNameOf : Resource → Option String
+  | .var _ n => some n
+  | _ => none
+
+/-- names of the plain `Variable` resources, in table order -/
+def varNames (rs : List Resource) : List String := rs.filterMap varNameOf
+
+theorem varNames_append_lit {rs suf : List Resource} (h : ∀ r ∈ suf, r.isLit = true) : varNames (rs ++ suf) = varNames rs := by
+  unfold varNames
+  rw [List.filterMap_append]
+  have : suf.filterMap varNameOf = [] := by
+    rw [List.filterMap_eq_nil_iff]
+    intro r hr
+    have := h r hr
+    cases r <;> simp_all [Resource.isLit, varNameOf]
+  rw [this, List.append_nil]
+
+theorem Ext.varNames {st st' : CState} (h : Ext st st') : varNames st'.resources = varNames st.resources := by
+  obtain ⟨⟨suf, e, hl⟩, _⟩ := h
+  rw [e]; exact varNames_append_lit hl
+
+/-- the plain variables of the table are declared (in `varIdx`) and pairwise distinct -/
+structure VarsDistinct (st : CState) : Prop where
+  nodup : (varNames st.resources).Nodup
+  declared : ∀ n ∈ varNames st.resources, st.varIdx.any (·.1 = n) = true
+
+theorem Ext.varsDistinct {st st' : CState} (h : Ext st st') (g : VarsDistinct st) : VarsDistinct st' :=
+  ⟨by rw [h.varNames]; exact g.nodup, by rw [h.varNames, h.vars]; exact g.declared⟩
+
+theorem visitVar_distinct {st st' : CState} {d : VarDecl} (g : VarsDistinct st) (h : visitVar st d = .ok st') : VarsDistinct st' := by
+  unfold visitVar at h
+  split at h
+  · cases h
+  · rename_i hnew
+    simp only at h
+    split at h
+    · cases h
+    · rename_i addr st1 hr
+      simp only [Except.ok.injEq] at h; subst h
+      -- `st1` = the state after the allocation; its varIdx is that of `st`
+      have key : ∃ st0, Ext st st0 ∧ ∃ r, (∀ v, r ≠ .const v) ∧ allocRes st0 r = .ok (addr, st1) ∧
+          (∀ n, varNameOf r = some n → n = d.name) := by
+        cases ho : d.origin with
+        | none =>
+          simp only [ho] at hr
+          refine ⟨st, Ext.refl _, .var d.ty d.name, ?_, hr, ?_⟩
+          · intro v hv; cases hv
+          · intro n hn; simpa [varNameOf] using hn.symm
+        | metaOf acc key =>
+          simp only [ho] at hr
+          split at hr
+          · cases hr
+          · rename_i a c0 st0 ha
+            refine ⟨st0, (visitTyped_ok ha).1, .varMeta d.ty d.name a key, ?_, hr, ?_⟩
+            · intro v hv; cases hv
+            · intro n hn; simp [varNameOf] at hn
+        | balance acc ae =>
+          simp only [ho] at hr
+          split at hr
+          · cases hr
+          · split at hr
+            · cases hr
+            · rename_i a c0 st0 ha
+              split at hr
+              · cases hr
+              · rename_i s c1 st1' hs
+                refine ⟨st1', (visitTyped_ok ha).1.trans (visitTyped_ok hs).1, .varBalance d.name a s, ?_, hr, ?_⟩
+                · intro v hv; cases hv
+                · intro n hn; simp [varNameOf] at hn
+      obtain ⟨st0, he, r, hnc, hal, hname⟩ := key
+      have g0 := he.varsDistinct g
+      have happ : appendResource st0 r = .ok (addr, st1) := by
+        unfold allocRes at hal
+        cases r with
+        | const v => exact absurd rfl (hnc v)
+        | var _ _ => exact hal
+        | varMeta _ _ _ _ => exact hal
+        | varBalance _ _ _ => exact hal
+        | monetary _ _ => exact hal
+      obtain ⟨_, rfl⟩ := appendResource_ok happ
+      have hv0 : st0.varIdx = st.varIdx := he.vars
+      have hnot : ¬ (st.varIdx.any (·.1 = d.name) = true) := hnew
+      constructor
+      · show (varNames (st0.resources ++ [r])).Nodup
+        unfold varNames
+        rw [List.filterMap_append]
+        cases hn : varNameOf r with
+        | none => simpa [hn, varNames] using g0.nodup
+        | some n =>
+          have : n = d.name := hname n hn
+          subst this
+          simp only [List.filterMap_cons, hn, List.filterMap_nil]
+          rw [List.nodup_append]
+          refine ⟨g0.nodup, by simp, ?_⟩
+          intro x hx y hy
+          simp only [List.mem_singleton] at hy; subst hy
+          intro hxy; subst hxy
+          have := g0.declared _ hx
+          rw [hv0] at this
+          exact hnot this
+      · show ∀ n ∈ varNames (st0.resources ++ [r]), (st0.varIdx ++ [(d.name, addr)]).any (·.1 = n) = true
+        intro n hn
+        unfold varNames at hn
+        rw [List.filterMap_append, List.mem_append] at hn
+        rw [List.any_append]
+        rcases hn with hn | hn
+        · simp only [Bool.or_eq_true]; exact Or.inl (g0.declared n hn)
+        · cases hv : varNameOf r with
+          | none => simp [hv] at hn
+          | some n' =>
+            simp only [List.filterMap_cons, hv, List.filterMap_nil, List.mem_singleton] at hn
+            subst hn
+            have := hname n hv
+            simp [this]
+
+theorem visitVarList_distinct {st st' : CState} {ds : List VarDecl} (g : VarsDistinct st) (h : visitVarList st ds = .ok st') :
+    VarsDistinct st' := by
+  induction ds generalizing st with
+  | nil => simp only [visitVarList, Except.ok.injEq] at h; subst h; exact g
+  | cons d rest ih =>
+    simp only [visitVarList] at h
+    split at h
+    · cases h
+    · rename_i st1 h1
+      exact ih (visitVar_distinct g h1) h
+
+/-- the plain `Variable` resources of a compiled program have pairwise distinct names -/
+theorem compile_varNames_nodup {P : Script} {prog : Program} (h : compile P = .ok prog) : (varNames prog.resources).Nodup := by
+  unfold compile at h
+  split at h
+  · cases h
+  · rename_i st0 h0
+    split at h
+    · cases h
+    · rename_i code st h1
+      simp only [Except.ok.injEq] at h; subst h
+      have g0 : VarsDistinct st0 := by
+        unfold visitVars at h0
+        split at h0
+        · cases h0
+        · exact visitVarList_distinct ⟨by simp [varNames], by intro n hn; simp [varNames] at hn⟩ h0
+      exact ((visitStmts_ext h1).varsDistinct g0).nodup
+
 end Num
